@@ -35,6 +35,7 @@ import DdsModel.Proofs.ReaderRefinesRun
 import DdsModel.Theorems.C05
 import DdsModel.Theorems.C20
 import DdsModel.Drv.C01
+import DdsModel.Proofs.TrapBc
 namespace Dds.C01
 open Dds Dds.Stream Dds.Reader
 
@@ -602,6 +603,50 @@ example :
         (step ⟨{ len := 148 + 960 }, o.fam, o.layout⟩ ⟨SurfIter.new o.layout, 148, 127⟩ (.read 16 16 (3, 0))).2,
         opNeed ⟨{ len := 148 + 960 }, o.fam, o.layout⟩ ⟨SurfIter.new o.layout, 148, 127⟩ (.read 16 16 (3, 0)))
      | .error _ => (.ok, .ok, 0)) = (.io, .memoryLimitExceeded, 128) := by
+  decide +kernel
+
+/-! ## 6. The per-block / per-pixel codec bodies do not panic
+
+`Trap*.lean` are *trapping mirrors* of the codec bodies: the same functions as the value models of C03 / C03x /
+C04 (`Bc.lean`, `Bc7.lean`, `Bc6.lean`, `Conv.lean`, `Uncompressed.lean`), written with the operators of
+`Trap.lean`, which return `none` wherever Rust panics in the `checked` build profile (overflow-checks +
+debug-assertions): `+ - *` leaving the integer type, a shift by ≥ the bit width, a run-time index out of range,
+a division by zero, a failing `debug_assert!` / `unreachable!()`.  Each theorem says: for EVERY block / encoded
+pixel the mirror returns `some v`, and `v` is exactly what the wrapping (release) model computes.  So no panic
+site of the body is reachable, and checked and release arithmetic agree. -/
+
+/-- **BC1–BC5 bodies** (`src/decode/bc.rs` `mod blocks` + the `formats.rs` conversions they call): the 13
+decoders `BC1_UNORM`, `BC2_UNORM` (RGBA, RGB), `BC2_UNORM_PREMULTIPLIED_ALPHA`, `BC3_UNORM` (RGBA, RGB),
+`BC3_UNORM_PREMULTIPLIED_ALPHA`, `BC3_UNORM_RXGB`, `BC3_UNORM_NORMAL`, `BC4_UNORM`, `BC4_SNORM`, `BC5_UNORM`,
+`BC5_SNORM` at U8, U16 and F32.  For every block (any 8 / 16 bytes): no `u8`/`u16`/`u32` operation overflows
+(`x * 17`, `x as u16 * 2108 + 92`, `(self.r5 * 2 + color.r5) * 351 + 61`, `g as u32 * 2763 + 1039`,
+`c0_u16 * 6 + c1_u16`, `interpolation as u32 * 2406112 + 28064`, `*channel as u16 * 255`, `x as u16 * 257`, …),
+every `debug_assert!` holds (`x <= 15/31/63`, `interpolation <= 1785/1275/1778/1270`), every palette / pixel
+index is in range (`lut[index as usize]`, `alpha_bytes[i * 2 + 1]`, `pixels[i * 4 + j]`), every shift amount is
+below the width (`indexes >> (i * 2)`, `>> (j * 3)`), the divisor of `to_straight_alpha` is non-zero — and the
+16 pixels are those of `Bc.decodeBlock`. -/
+theorem bc1to5_bodies_trapfree (f : Bc.Fmt) (pr : Bc.Prec) (blk : Nat → Nat) (hb : ∀ i, blk i < 256) :
+    TrapBc.blockT f pr blk = some (Bc.decodeBlock f pr blk) :=
+  TrapBc.blockT_eq f pr blk hb
+
+/-- non-vacuity: concrete blocks through the mirror (BC1 in three-colour mode with a transparent pixel at
+U16, a premultiplied BC3 block with alpha 0 at U8, a BC5_SNORM block with endpoints −128 / 127 at U16);
+the mirror is not constantly `some`: an out-of-range 5-bit field makes `n5::n8`'s `debug_assert!` fail,
+a 300 "byte" makes `x as u16 * 257` overflow -/
+example :
+    let b1 : Nat → Nat := fun i => [0x34, 0x12, 0x78, 0x56, 0xE4, 0x1B, 0xFF, 0x00].getD i 0
+    let b3 : Nat → Nat := fun i =>
+      [0x00, 0xFF, 0x88, 0xC6, 0xFA, 0x53, 0x97, 0x1F, 0xFF, 0xFF, 0x00, 0x00, 0xE4, 0x1B, 0x4E, 0xB1].getD i 0
+    let b5 : Nat → Nat := fun i =>
+      [0x80, 0x7F, 0x88, 0xC6, 0xFA, 0x53, 0x97, 0x1F, 0x7F, 0x80, 0x00, 0x11, 0x22, 0x33, 0x44, 0x55].getD i 0
+    (TrapBc.blockT .bc1 .u16 b1).map (·.take 4) =
+      some [[4112, 17733, 42405, 65535], [21074, 52942, 50629, 65535], [12593, 35466, 46517, 65535], [0, 0, 0, 0]] ∧
+    (TrapBc.blockT .bc3p .u8 b3).map (·.take 4) =
+      some [[255, 255, 255, 0], [0, 0, 0, 255], [255, 255, 255, 51], [212, 212, 212, 102]] ∧
+    (TrapBc.blockT .bc5s .u16 b5).map (·.take 4) =
+      some [[0, 65535, 32768], [65535, 65535, 32768], [13107, 37449, 32768], [26214, 65535, 32768]] ∧
+    TrapBc.blockT .bc1 .u16 b1 = some (Bc.decodeBlock .bc1 .u16 b1) ∧
+    TrapBc.n5n8T 32 = none ∧ TrapBc.n8n16T 300 = none := by
   decide +kernel
 
 end Dds.C01
